@@ -439,7 +439,13 @@ func offenders(c case29, names []string) []string {
 			fmt.Sscanf(first[1:], "%d", &i)
 		}
 		if i >= 1 && i <= len(c.Fields) {
-			set[entryKey(c.Fields[i-1])] = true
+			e := c.Fields[i-1]
+			k := entryKey(e)
+			// shapes whose removal works with an inline /Kids array get a key of their own when /Kids is an indirect object
+			if c.indirect("kids") && (k == "sigK" || k == "grp" || k == "grpFT") {
+				k += ":indirectKids"
+			}
+			set[k] = true
 		} else {
 			set["?"+n] = true
 		}
